@@ -590,7 +590,7 @@ else:
           [1.0 + 1e-10, 0.3, -2.0], [0.5, 0.0, 0.0]]
     h = (0.5, 0.5, 0.5, 0.5)
     QA = [(h, False), (tuple(-x for x in h), False), (h, True), ((0.6, 0.8, 0.0, 0.0), False),
-          ((0.5 + 1e-13, 0.5, 0.5, 0.5), False), ((0.5 + 1e-11, 0.5, 0.5, 0.5), False)]
+          ((0.5 + 1.3e-13, 0.5, 0.5, 0.5), False), ((0.5 + 1.3e-11, 0.5, 0.5, 0.5), False)]
     for n in range(1, L + 1):
         for tup in itertools.product(VA, repeat=n):
             st(f"exhaustive/base/len={n}")
